@@ -24,12 +24,19 @@ LEVEL_TEXT = ("Machine-checked proofs (Coq 8.16, real-number instance of the sha
               "non-zero, which is proved to be exactly the read positions); the receptive views are the stated index "
               "permutations and their shapes broadcast to B x weight-shape x L.")
 LEVEL_NOTE = ("Trusted: Coq kernel; the hand-written model coq/C05/Conn.v (object plumbing, not translatable kernels) is tied to the "
-              "code only by the correspondence check (bounded by generator coverage: H,W<=7, kernel<=3, stride/dilation<=3, "
-              "padding<=2, C,F<=3, B<=3); PyTorch's F.linear / matmul / F.unfold / F.fold / einops are modelled by their "
-              "mathematical meaning, not verified; theorems are exact real arithmetic (floating-point rounding, inf/NaN not "
-              "covered: assigning inf/NaN on the lateral diagonal yields NaN because the setter multiplies by the mask). "
-              "NOT proved: the delayed branches (only the all-delays-zero case is exercised by correspondence; delays are C06), "
-              "the selector property, constructor argument validation (correspondence only).")
+              "code only by the correspondence check (bounded by generator coverage: H,W<=7 (9 thorough), kernel<=3, "
+              "stride/dilation<=3, padding<=2, C,F<=3, B<=3); PyTorch's F.linear / matmul / F.unfold / F.fold / einops are modelled "
+              "by their mathematical meaning, not verified; theorems are exact real arithmetic (floating-point rounding and "
+              "inf/NaN not covered: assigning inf/NaN on the lateral diagonal yields NaN because the setter multiplies by the "
+              "mask - recorded as nonfinite_assignment_probe in the evidence). Proved (27 obligations + nonvacuity): "
+              "dense/direct/lateral forward specs with output shapes, lateral diagonal invariant and entry-wise weight/delay "
+              "history specs over all operation sequences, forward-after-history, conv unfold index spec, cross-correlation "
+              "theorem, output-size formula, output shape, totality on the whole valid geometry grid, like_input characterisation "
+              "and round trip on exactly the read positions, receptive-view permutations and broadcast shapes, einsum (delayed) "
+              "branch as a sum, and a witness that the constructor accepts H=W=1,k=3 (negative advertised output, forward raises; "
+              "outside the property's quantifier). NOT proved: which currents the delays select (C06; only the all-delays-zero case "
+              "is exercised, by correspondence), the selector property, like_bias (identity reshapes; correspondence only), "
+              "constructor argument validation beyond positivity (correspondence only).")
 TRUSTED = ["coq/C05/Conn.v: hand-written model of the four connection classes, the masked setters, Updater application and the "
            "reshaping helpers; validated against the real classes on every run by tools/props/c05.py"]
 ASSUMES = ["synapse current = like_synaptic(input) * (charge/dt) for the DeltaCurrent / DeltaPlusCurrent synapses used to drive "
